@@ -202,6 +202,24 @@ def run_case(case):
                         r.violation(f'C10:{fam}:dtype-dependence:object', f'{fam}.fit(n={n} pattern#{idx} {mapping}) stored as dtype=object: '
                                     f'{"raised " + type(oe).__name__ if oe else oc.theta!r}, as float64: '
                                     f'{"raised " + type(be).__name__ if be else bc.theta!r}', case=case, X=X)
+                if idx % 7 == 3 and abs(K.tau_b(X[:, 0], X[:, 1])) < 0.999:          # (tau = 1 - 1ulp rounds to 1 in a narrow type)
+                    # ... and stored as float32 / float16 (when the narrower type keeps every order relation of both columns and
+                    # keeps the values inside [0, 1]): the same refusal, or the same theta up to the precision of the narrow type
+                    # (scipy's kendalltau answers in the precision it is given; that is not judged)
+                    bc, be = _fit(fam, X.copy())
+                    for dt in (np.float32, np.float16):
+                        Xn = X.astype(dt)
+                        keeps = all(np.array_equal(np.unique(Xn[:, j], return_inverse=True)[1], np.unique(X[:, j], return_inverse=True)[1])
+                                    for j in (0, 1)) and float(Xn.min()) >= 0.0 and float(Xn.max()) <= 1.0
+                        if not keeps:
+                            continue
+                        nc, ne = _fit(fam, Xn)
+                        r.tr()
+                        if type(be) is not type(ne) or (be is None and not (abs(float(nc.theta) - bc.theta) <= 50 * float(np.finfo(dt).eps) * max(1.0, abs(bc.theta)) or
+                                                                             (nc.theta != nc.theta and bc.theta != bc.theta) or nc.theta == bc.theta)):
+                            r.violation(f'C10:{fam}:dtype-dependence:{dt.__name__}', f'{fam}.fit(n={n} pattern#{idx} {mapping}) stored as '
+                                        f'{dt.__name__}: {"raised " + type(ne).__name__ + ": " + str(ne)[:60] if ne else nc.theta!r}, as float64: '
+                                        f'{"raised " + type(be).__name__ if be else bc.theta!r}', case=case, X=X)
                 if mapping == 'closed' and set(np.unique(X).tolist()) <= {0.0, 1.0}:
                     # a valid table whose values are all 0 or 1 may be stored with an integer or boolean dtype: same outcome
                     base_c, base_e = _fit(fam, X.copy())
